@@ -28,6 +28,7 @@ type site struct {
 	Params                           []string
 	ParamTypes                       []string
 	ResultType                       string
+	Untranslatable                   bool
 }
 
 type translator struct {
@@ -238,6 +239,28 @@ func main() {
 			body, params, err := tr.fn(fd)
 			if err != nil {
 				failures = append(failures, fmt.Sprintf("%s:%d %s: %v", rel, line, fd.Name.Name, err))
+				// still report the site, so that the generated driver can exercise the real function against
+				// exact arithmetic and produce the failing input
+				var ptypes, pnames []string
+				for _, f := range fd.Type.Params.List {
+					for _, n := range f.Names {
+						ptypes = append(ptypes, typeName(f.Type))
+						pnames = append(pnames, n.Name)
+					}
+				}
+				kind := ""
+				switch {
+				case len(pnames) == 3:
+					kind = "muldiv3"
+				case fd.Name.Name == "timestampToDuration" || fd.Name.Name == "durationMp4ToGo":
+					kind = "to_nanos"
+				case fd.Name.Name == "durationToTimestamp" || fd.Name.Name == "durationGoToMp4":
+					kind = "from_nanos"
+				}
+				if kind != "" && fd.Type.Results != nil && len(fd.Type.Results.List) == 1 {
+					sites = append(sites, site{Pkg: dir, File: rel, Line: line, Name: fd.Name.Name, Kind: kind, Params: pnames,
+						ParamTypes: ptypes, ResultType: typeName(fd.Type.Results.List[0].Type), Untranslatable: true})
+				}
 				continue
 			}
 			cn := pk + "__" + fd.Name.Name
@@ -270,12 +293,14 @@ func main() {
 	sb.WriteString("(* GENERATED by /verif/tools/gen/muldiv from the Go sources on every run. Do not edit. *)\n")
 	sb.WriteString("From Coq Require Import ZArith List.\nRequire Import MTX.Lib.IntWrap MTX.Model.C24_MulDiv.\nImport ListNotations.\nLocal Open Scope Z_scope.\n\n")
 	for _, s := range sites {
-		sb.WriteString(s.Def + "\n")
+		if !s.Untranslatable {
+			sb.WriteString(s.Def + "\n")
+		}
 	}
 	for _, k := range []string{"muldiv3", "to_nanos", "from_nanos"} {
 		var names []string
 		for _, s := range sites {
-			if s.Kind == k {
+			if s.Kind == k && !s.Untranslatable {
 				names = append(names, s.CoqName)
 			}
 		}
@@ -285,7 +310,13 @@ func main() {
 		}
 		fmt.Fprintf(&sb, "Definition sites_%s : list (%s) := [%s].\n", k, ty, strings.Join(names, "; "))
 	}
-	fmt.Fprintf(&sb, "Definition site_count : Z := %d.\n", len(sites))
+	nsites := 0
+	for _, s := range sites {
+		if !s.Untranslatable {
+			nsites++
+		}
+	}
+	fmt.Fprintf(&sb, "Definition site_count : Z := %d.\n", nsites)
 	if err := os.WriteFile(outPath, []byte(sb.String()), 0o644); err != nil {
 		fmt.Fprintln(os.Stderr, err)
 		os.Exit(2)
